@@ -87,6 +87,13 @@ fn run(req: &json::JsonValue) -> json::JsonValue {
         let lo = (v as u32).to_le_bytes(); let hi = ((v >> 32) as u32).to_le_bytes();
         prog[slot * 8 + 4..slot * 8 + 8].copy_from_slice(&lo); prog[slot * 8 + 12..slot * 8 + 16].copy_from_slice(&hi);
     }
+    // pointer patches inside the data buffers: [buffer, offset, which, delta] stores base(which)+delta (u64 LE) at buffer[offset..]
+    for p in req["bufpatch"].members() {
+        let v = base(p[2].as_str().unwrap()).wrapping_add(p[3].as_i64().unwrap_or(0) as u64).to_le_bytes();
+        let off = p[1].as_usize().unwrap();
+        let tgt = match p[0].as_str().unwrap() { "mem" => membuf.slice(), "mbuff" => mbbuf.slice(), _ => exbuf.slice() };
+        if off + 8 <= tgt.len() { tgt[off..off + 8].copy_from_slice(&v); }
+    }
     let prog: &'static [u8] = Box::leak(prog.into_boxed_slice());
     let engine = req["engine"].as_str().unwrap_or("interp").to_string();
     let vmk = req["vm"].as_str().unwrap_or("mbuff").to_string();
